@@ -674,6 +674,18 @@ def run(ctx):
         evaluate(ctx, cases, "random")
         done += len(cases)
         ctx.check_time()
+    if ctx.violations:
+        # minimise the first failing input (drop operations / metadata while it still fails inside the hypotheses)
+        v = ctx.violations[0]
+        try:
+            c2, info = shrink(ctx, v["case"], {"why": v["observed"].get("first_difference") if isinstance(v["observed"], dict) else str(v["observed"])})
+            if c2 is not v["case"]:
+                v["unshrunk_case"] = v["case"]
+                v["case"], v["key"] = c2, case_key(c2)
+                v["what"] = "the probe query translates differently after this history than in a fresh interpreter: " + str(info.get("why"))
+                v["observed"] = info
+        except Exception as e:  # shrinking is best effort
+            ctx.notes.append(f"shrink raised {type(e).__name__}: {e}")
     ctx.extra_cov["exhaustive"] = False
     ctx.extra_cov["inside_hypotheses"] = "every judged case: all operations benign for the probe (benignNew/benignOn evaluated by the Lean driver on the observed outcomes)"
     ctx.extra_cov["outside_hypotheses"] = "exercised only through the listed known findings (one literal history per leak class)"
